@@ -138,7 +138,7 @@ pub fn run_jobs(specs: Vec<ShardSpec>, par: usize, tag: &str) -> Vec<(ShardSpec,
                     let what = match (status.code(), status.signal()) {
                         (Some(97), _) => "hang: no progress for the watchdog period".to_string(),
                         (Some(98), _) => "AddressSanitizer report".to_string(),
-                        (Some(2), _) => "machinery".to_string(),
+                        (Some(2), _) | (Some(101), _) => "machinery".to_string(),
                         (Some(c), _) => format!("exit code {}", c),
                         (None, Some(s)) => format!("killed by signal {}", s),
                         _ => "unknown death".to_string(),
